@@ -4,7 +4,7 @@ Object references are selector integers resolved by the executor against the liv
 (candidates[sel % len(candidates)]), every op carries its own sub-seeds, so any sub-list of an op
 list is again an executable op list (DESIGN.md 4.2).
 """
-from .prng import Rng, mix
+from .prng import Rng, mix, gen_globals
 
 Q16 = 1 << 16
 
@@ -64,7 +64,7 @@ def pick_family(rng: Rng, tier: str, want_ham: bool, profile: str):
     while d > 1 and d ** (Lmax + 1) <= cap and Lmax < (10 if profile == 'C20' else 8):
         Lmax += 1
     if d == 1:
-        Lmax = 6
+        Lmax = 6 if rng.chance(0.5) else 48      # long chains are only within dense reach for d = 1
     heavy = profile in ('C08', 'C09', 'C10')
     if heavy:
         Lmax = min(Lmax, 5 if tier == 'quick' else 6)
@@ -72,7 +72,9 @@ def pick_family(rng: Rng, tier: str, want_ham: bool, profile: str):
     if profile == 'C10':
         Lmin = 2
     L = rng.randrange(Lmin, Lmax + 1)
-    if rng.chance(0.5):
+    if max(abs(x) for x in qd) * (L + 3) >= 2 ** 62:
+        L = min(L, 6)        # bond charges are sums of up to L physical charges and must stay int64
+    if rng.chance(0.5) and Lmax <= 10:
         L = max(Lmin, min(Lmax, rng.pick([2, 3, 3, 4, 4, 5])))
     return fam, d, qd, L
 
@@ -100,7 +102,11 @@ def right_sets(qd, L, qtot):
     return sets
 
 
-def gen_mps_qD(rng: Rng, qd, L, Dmax, style, q0=0, qtot=None):
+def _fat_dim(rng: Rng, fat):
+    return rng.pick([1, 2, 3, max(1, fat // 8), max(1, fat // 4), fat // 2 + 1, fat, fat])
+
+
+def gen_mps_qD(rng: Rng, qd, L, Dmax, style, q0=0, qtot=None, fat=None):
     """Returns (qD lists, qtot, style)."""
     ls = left_sets(qd, L, q0)
     if qtot is None:
@@ -121,7 +127,9 @@ def gen_mps_qD(rng: Rng, qd, L, Dmax, style, q0=0, qtot=None):
             for c in valid:
                 cur += [c] * ls[i][c]
         elif style == 'valid' and valid:
-            D = rng.randrange(1, Dmax + 1)
+            D = rng.randrange(1, Dmax + 1) if not fat else _fat_dim(rng, fat)
+            if fat and rng.chance(0.5):
+                valid = [rng.pick(valid) for _ in range(rng.randrange(1, 3))]      # one or two sectors: large blocks
             cur = [rng.pick(valid) for _ in range(D)]
             how = rng.randrange(3)
             if how == 0:
@@ -129,7 +137,7 @@ def gen_mps_qD(rng: Rng, qd, L, Dmax, style, q0=0, qtot=None):
             elif how == 1:
                 cur.sort(reverse=True)
         elif style == 'random' or not valid:
-            D = rng.randrange(1, Dmax + 1)
+            D = rng.randrange(1, Dmax + 1) if not fat else _fat_dim(rng, fat)
             lo = min(qd) * i + q0 - 1
             hi = max(qd) * i + q0 + 1
             cur = [rng.randrange(lo, hi + 1) for _ in range(D)]
@@ -177,17 +185,17 @@ BODY = {
               from_vector=2, split_merge=3, orthonormalize=0.7, edit=0.7, deepcopy=0.3, ham=0.5),
     'C04': _w(new_mps=3, new_mpo=2, ham=1, herm_mpo=1, vdot=4, norm=2, op_avg=3, op_inner=3, op_density=2.5, env_blocks=5,
               orthonormalize=1.5, compress=1, add=1, apply=1, tdvp=0.5, dmrg=0.3, edit=0.7, matmul=0.4),
-    'C08': _w(scale_H_inplace=1.2, share_copy=0.3, tdvp=10, orthonormalize=0.8, deepcopy=0.5, norm=0.5, op_avg=0.7, new_mps=1, as_vector=0.3, vdot=0.3, edit=1.2, compress=0.3),
-    'C09': _w(scale_H_inplace=0.8, share_copy=0.3, tdvp=6, tdvp_reverse=4, new_mps=1.2, deepcopy=0.4, orthonormalize=0.5, op_avg=0.3, edit=0.8),
-    'C10': _w(scale_H_inplace=1.0, share_copy=0.3, dmrg=10, orthonormalize=0.6, deepcopy=0.5, new_mps=1.2, op_avg=0.6, norm=0.3, tdvp=0.3, edit=1.0, compress=0.3),
+    'C08': _w(shift_H=0.6, identity=0.3, add=0.4, scale_H_inplace=1.2, share_copy=0.3, tdvp=10, orthonormalize=0.8, deepcopy=0.5, norm=0.5, op_avg=0.7, new_mps=1, as_vector=0.3, vdot=0.3, edit=1.2, compress=0.3),
+    'C09': _w(shift_H=1.0, identity=0.3, add=0.4, scale_H_inplace=0.8, share_copy=0.3, tdvp=6, tdvp_reverse=4, new_mps=1.2, deepcopy=0.4, orthonormalize=0.5, op_avg=0.3, edit=0.8),
+    'C10': _w(shift_H=0.6, identity=0.3, add=0.4, scale_H_inplace=1.0, share_copy=0.3, dmrg=10, orthonormalize=0.6, deepcopy=0.5, new_mps=1.2, op_avg=0.6, norm=0.3, tdvp=0.3, edit=1.0, compress=0.3),
     'C11': _w(share_copy=0.6, kernel=5, zero_qnumbers=0.5, new_mps=4, new_mpo=2, orthonormalize=9, edit=3, add=1.5, apply=1, tdvp=1.2, dmrg=0.8, compress=0.5,
               deepcopy=0.3, ham=0.4, herm_mpo=0.3),
     'C12': _w(share_copy=0.6, kernel=5, zero_qnumbers=0.5, deepcopy=0.4, new_mps=3.5, split_merge=7, compress=5, from_vector=2.5, add=2.5, sub=1, apply=1, tdvp=1.2, dmrg=0.8,
               edit=2, orthonormalize=0.7, ham=0.4, herm_mpo=0.3),
     'C13': _w(share_copy=0.6, new_mps=3, compress=9, from_vector=4, add=3, sub=1.5, apply=1.5, tdvp=0.8, edit=1.5, orthonormalize=0.7,
               deepcopy=0.4, ham=0.4, new_mpo=0.5, herm_mpo=0.2),
-    'C14': _w(scale_H_inplace=0.3, tdvp=5, dmrg=5, new_mps=1, orthonormalize=0.3, tdvp_reverse=0.5),
-    'C15': _w(scale_H_inplace=0.3, tdvp=5, dmrg=5, new_mps=1, orthonormalize=0.3, tdvp_reverse=0.5),
+    'C14': _w(shift_H=0.3, scale_H_inplace=0.3, tdvp=5, dmrg=5, new_mps=1, orthonormalize=0.3, tdvp_reverse=0.5),
+    'C15': _w(shift_H=0.3, scale_H_inplace=0.3, tdvp=5, dmrg=5, new_mps=1, orthonormalize=0.3, tdvp_reverse=0.5),
     'C19': _w(share_copy=0.6, kernel=1, new_mps=2, new_mpo=1.5, ham=0.8, herm_mpo=0.6, identity=0.5, from_vector=1, orthonormalize=2, compress=2,
               add=3, sub=2, matmul=1.5, apply=3, split_merge=1, tdvp=1.2, dmrg=1, edit=1.5, deepcopy=1, zero_qnumbers=0.8,
               vdot=1, norm=0.5, op_avg=1, op_inner=1, op_density=0.7, as_vector=1, as_matrix=1, env_blocks=0.7),
@@ -264,6 +272,10 @@ def gen_new_mps(rng: Rng, cfg, style=None, qtot=None):
         else:
             style = rng.wpick([('valid', 6), ('full', 1.5), ('random', 1.5), ('disjoint', 0.5), ('leftfull', 0.3)])
     Dmax = cfg['Dmax']
+    fat = None
+    if cfg.get('fat') and style in ('valid', 'zeroq', 'random') and rng.chance(0.5):
+        # few sites, very large and very uneven bond dimensions (large blocks per sector, strongly rectangular matrices)
+        fat = cfg['fat']
     if style == 'ghz':
         d = cfg['d']
         qD = [[0]] + [[0] * d for _ in range(L - 1)] + [[0]]
@@ -276,7 +288,7 @@ def gen_new_mps(rng: Rng, cfg, style=None, qtot=None):
         qD = [[0] * min(d ** i, d ** (L - i), 16) for i in range(L + 1)]
         qt = 0
     elif style == 'zeroq':
-        qD = [[0]] + [[0] * rng.randrange(1, Dmax + 1) for _ in range(L - 1)] + [[0]]
+        qD = [[0]] + [[0] * (rng.randrange(1, Dmax + 1) if not fat else _fat_dim(rng, fat)) for _ in range(L - 1)] + [[0]]
         if L == 0:
             qD = [[0]]
         qt = 0
@@ -284,7 +296,7 @@ def gen_new_mps(rng: Rng, cfg, style=None, qtot=None):
         if style in ('full', 'leftfull') and cfg['d'] ** L > 256 and style == 'leftfull':
             style = 'full'
         q0 = 0 if rng.chance(0.8) else rng.randrange(-2, 3)
-        qD, qt = gen_mps_qD(rng, qd, L, Dmax, style, q0=q0, qtot=qtot)
+        qD, qt = gen_mps_qD(rng, qd, L, Dmax, style, q0=q0, qtot=qtot, fat=fat)
     fill = rng.wpick([('rng', 8), ('env', 1), ('scalar', 1)])
     op = {'op': 'new_mps', 'qD': qD, 'style': style, 'fill': fill, 'sub': rng.sub(),
           'entries': rng.wpick([('complex', 6), ('real', 2), ('int', 1), ('dyadic', 1)])}
@@ -321,12 +333,18 @@ def gen_session(prop: str, tier: str, seed: int) -> dict:
         for k in GAUGE_KINDS:
             if rng.chance(0.7):
                 enabled.append(k)
-        for k, p in (('RNGENV', 0.9), ('LAYOUT', 0.6), ('WPROT', 0.7), ('RAISE', 0.3 if profile in ('C19', 'C02', 'MIX') else 0.15)):
+        for k, p in (('RNGENV', 0.9), ('LAYOUT', 0.6), ('WPROT', 0.7), ('RAISE', 0.3 if profile in ('C19', 'C02', 'MIX') else 0.15), ('GLOBALS', 0.5)):
             if rng.chance(p):
                 enabled.append(k)
     cfg = {'world': 'tn', 'profile': profile, 'tier': tier, 'family': fam, 'd': d, 'qd': qd, 'L': L, 'Dmax': Dmax,
            'enabled': enabled, 'faultfree': faultfree, 'dense_cap': 256 if tier == 'quick' else 1024}
+    if profile not in ('C08', 'C09', 'C10', 'C14', 'C15', 'C20') and L <= 4 and d >= 2 and rng.chance(0.05):
+        cfg['fat'] = rng.pick([40, 70, 130, 130, 260, 520])
+    elif profile in ('C08', 'C09', 'C10', 'C14', 'C15') and L <= 3 and d >= 2 and rng.chance(0.03):
+        cfg['fat'] = rng.pick([24, 40])
     nops = rng.randrange(3, 13) if tier == 'quick' else rng.randrange(4, 31)
+    if rng.chance(0.06):
+        cfg['pyopt'] = True       # run this session under `python -O`
     if profile == 'C20' and d ** L > 256:
         nops = rng.randrange(0, 2)      # large chains: only the constructor (dense 1024 x 1024 models are expensive)
     ops = []
@@ -338,6 +356,8 @@ def gen_session(prop: str, tier: str, seed: int) -> dict:
         if rng.chance(0.15) and profile not in ('C20',):
             ops.append({'op': 'zero_qnumbers', 'sel': len(ops) - 1, 'kind': 'mpo'})
             cfg['zeroed_ham'] = True
+    if profile in ('C08', 'C09', 'C10') and rng.chance(0.2):
+        ops.append({'op': 'shift_H', 'sel': rng.sub(), 'rel': rng.pick([1.0, 1.5, 3.0, -1.0, -1.5, 0.5])})
     if profile in ('C09', 'C10') and rng.chance(0.6 if profile == 'C09' else 0.3):
         complete = True
     if profile in ('C08', 'C09', 'C10', 'C14', 'C15'):
@@ -382,6 +402,8 @@ def gen_session(prop: str, tier: str, seed: int) -> dict:
                 env['raise_at'] = rng.pick([0, 0, 1, 1, 2, 3, 5, 8])
                 env['raise_on'] = rng.pick(['any', 'svd', 'svd'])
                 raise_used = True
+            if 'GLOBALS' in enabled and rng.chance(0.35):
+                env['globals'] = gen_globals(rng, allow_exceptions=True)
         op['env'] = env
     return {'world': 'tn', 'prop': prop, 'tier': tier, 'seed': seed, 'config': cfg, 'ops': ops}
 
@@ -461,6 +483,8 @@ def gen_op(rng: Rng, cfg, kind: str) -> dict:
         return {'op': 'split_merge', 'sel': s(), 'site': s(), 'distr': rng.pick(['left', 'right', 'sqrt']),
                 'tol': rng.pick(DYADIC_TOLS) if rng.chance(0.5) else 0.0, 'exact_tie': rng.chance(0.3), 'between': rng.chance(0.3),
                 'tolscale': rng.random()}
+    if kind == 'shift_H':
+        return {'op': 'shift_H', 'sel': s(), 'rel': rng.pick([1.0, 1.5, 3.0, -1.0, -1.5, 0.5])}
     if kind == 'scale_H_inplace':
         return {'op': 'scale_H_inplace', 'sel': s(), 'site': s(), 'factor': rng.pick([0.5, 2.0, -1.0, 1.5, 0.25])}
     if kind == 'kernel':
@@ -470,10 +494,13 @@ def gen_op(rng: Rng, cfg, kind: str) -> dict:
                 'tol': rng.pick(DYADIC_TOLS) if rng.chance(0.5) else 0.0}
     if kind == 'tdvp':
         return {'op': 'tdvp', 'H': s(), 'psi': s(), 'sites': rng.pick([1, 1, 2]), 'dt': _dt(rng, profile, cfg.get('complete')), 'extreme': rng.chance(0.05),
-                'n': rng.pick([1, 1, 2, 3]), 'numiter': rng.pick(NUMITERS_TDVP) if profile != 'C09' else rng.pick([12, 16, 25, 40]),
+                'n': rng.pick([1, 1, 2, 3]) if not (L <= 4 and cfg['Dmax'] <= 4 and not cfg.get('fat') and rng.chance(0.02 if profile != 'C09' else 0.06))
+                else (rng.randrange(51, 58) if profile != 'C09' else rng.randrange(51, 140)),
+                'numiter': rng.pick(NUMITERS_TDVP) if profile != 'C09' else rng.pick([12, 16, 25, 40]),
                 'tol_split': 0.0 if ((profile in ('C08', 'C09') and rng.chance(0.85)) or rng.chance(0.6)) else rng.pick([1e-10, 1e-7, 1e-6, 1e-3, 0.0625])}
     if kind == 'tdvp_reverse':
-        return {'op': 'tdvp_reverse', 'H': s(), 'psi': s(), 'dt': _dt(rng, 'C09', False), 'n': rng.pick([1, 1, 2, 3]),
+        return {'op': 'tdvp_reverse', 'H': s(), 'psi': s(), 'dt': _dt(rng, 'C09', False),
+                'n': rng.pick([1, 1, 2, 3]) if not (L <= 4 and cfg['Dmax'] <= 4 and not cfg.get('fat') and rng.chance(0.04)) else rng.randrange(40, 100),
                 'numiter': rng.pick([12, 16, 25, 40])}
     if kind == 'dmrg':
         return {'op': 'dmrg', 'H': s(), 'psi': s(), 'sites': rng.pick([1, 1, 2]), 'numsweeps': rng.pick([1, 1, 2, 3, 4]),
